@@ -86,7 +86,14 @@ pub fn random_history(rng: &mut Rng, maxops: usize) -> Vec<ClaimOp> {
                     continue;
                 }
                 let d = rng.below(4);
-                kvs.push((k.clone(), gens::json_tree(rng, d)));
+                let mut v = gens::json_tree(rng, d);
+                if rng.chance(1, 4) {
+                    // a value that is an object whose only member is named like its own key
+                    let mut m = Map::new();
+                    m.insert(k.clone(), v);
+                    v = Value::Object(m);
+                }
+                kvs.push((k.clone(), v));
                 keys.push(k);
             }
             ops.push(ClaimOp::Extend(kvs));
@@ -978,7 +985,7 @@ fn c16_eval(c: &C16Case, r: &mut Report, seed: u64) {
     if c.forgery == "wrong-assertion" && !c.p.has_assertion() {
         return;
     }
-    let cfg = ParserCfg { footer, assertion: ia, expected: c.expected.clone(), validators: c.validators.clone(), default_parser: c.default_parser, expected_via_extend: false };
+    let cfg = ParserCfg { footer, assertion: ia, expected: c.expected.clone(), validators: c.validators.clone(), default_parser: c.default_parser, ..Default::default() };
     let _ = vlog_take();
     let out = match c.layer {
         Layer::Generic => generic_open(c.p, &key, &t, &cfg).0,
@@ -1213,7 +1220,7 @@ pub fn run_c16(tier: &str, seed: u64) -> Report {
             toks.swap(k, j);
         }
         let (layer, dp) = [(Layer::Generic, false), (Layer::Batteries, false), (Layer::Batteries, true)][i % 3];
-        let cfg = ParserCfg { footer: Some("ftr".into()), assertion: ia0.map(|s| s.to_string()), expected: vec![], validators: validators.clone(), default_parser: dp, expected_via_extend: false };
+        let cfg = ParserCfg { footer: Some("ftr".into()), assertion: ia0.map(|s| s.to_string()), expected: vec![], validators: validators.clone(), default_parser: dp, ..Default::default() };
         let seq: Vec<&str> = toks.iter().map(|t| t.0.as_str()).collect();
         let outs = if layer == Layer::Generic { generic_open_seq(p, &key, &seq, &cfg) } else { batteries_open_seq(p, &key, &seq, &cfg) };
         let tag = format!("{}/{}{}", p.name(), layer.name(), if dp { "-default" } else { "" });
